@@ -143,7 +143,7 @@ func (t Triangle) Rand() float64 {
 // Score will panic, and the derivative is stored in-place into deriv. If deriv
 // is nil a new slice will be allocated and returned.
 //
-// The order is [∂LogProb / ∂Mu, ∂LogProb / ∂Sigma].
+// The order is [∂LogProb / ∂a, ∂LogProb / ∂b, ∂LogProb / ∂c].
 //
 // For more information, see https://en.wikipedia.org/wiki/Score_%28statistics%29.
 func (t Triangle) Score(deriv []float64, x float64) []float64 {
